@@ -30,6 +30,11 @@ package adapter
 
 //@ func (p *IBCParser) ParsePayload(memoBz) (payload, err)
 //@   requires[base] p != nil
+//   C06/C09: the actions handed on are the actions decoded - same payload object, same list (same backing
+//   array, offset and length), and - frame - no element of it replaced: nothing is dropped, added or reordered
+//   between decoding and dispatch
+//@   modifies dec_payload, dec_actions
+//@   ensures[C06,C09] err == nil ==> payload == ptrto(dec_payload, "*types/core.Payload") && payload.PreActions == dec_actions
 //@   ensures[base,C15] err == nil ==> payloadOK(payload)
 
 // ParsePacket: on success the coin is the unprefixed (Noble-side) denomination, which is native, with
@@ -38,6 +43,8 @@ package adapter
 //@ macro ibcPkt(cc) = cast(cc, "*types/component/adapter.IBCCrossChainPacket")
 //@ macro dataOf(cc) = ics20Of(bytesof(ibcPkt(cc).data))
 //@ func (a *IBCAdapter) ParsePacket(ccPacket) (result, err)
+//   (the decoded payload and its action list are recorded by the JSON parser: ghosts dec_*)
+//@   modifies dec_payload, dec_actions
 //@   requires[inv]  a != nil && a.parser != nil
 //@   ensures[base] err == nil ==> result != nil && payloadFieldsOK(result.Payload) && !isnil(result.Coin.Amount)
 //@   ensures[base] err == nil ==> validDenom(result.Coin.Denom) && val(result.Coin.Amount) >= 0
@@ -56,6 +63,11 @@ package adapter
 //@ func (p *JSONParser) Parse(jsonString) (result, err)
 //   NewJSONParser refuses a nil codec
 //@   requires[inv] p != nil && tag(p.cdc) != 0
+//   C06/C09: the payload returned and its action list are recorded (ghosts), see ParsePayload
+//@   modifies dec_payload, dec_actions
+//@   sets-post dec_payload = result
+//@   sets-post dec_actions = result.PreActions
+//@   ensures[C06,C09] err != nil ==> result == nil
 //@   ensures[C15] err == nil ==> jsonOK(strbytes(jsonString)) && jsonNumKeys(strbytes(jsonString)) == 1
 //@   ensures[C15] err == nil ==> jsonKeys(strbytes(jsonString))["orbiter"] && tag(jsonVals(strbytes(jsonString))["orbiter"]) != 0
 
